@@ -3,6 +3,7 @@ import LeptosModel.Proofs.HydrateLoad
 import LeptosModel.Proofs.HydrateInitial
 import LeptosModel.Proofs.HydrateSettle
 import LeptosModel.Proofs.HydrateFinal
+import LeptosModel.Proofs.HydrateSim
 import LeptosModel.Proofs.HydrateStream
 import LeptosModel.Theorems.C07
 /-!
@@ -25,7 +26,8 @@ optional attributes, tuples nested arbitrarily (= fragments), `Option`, `Either`
 | `C05_walk_commutes_with_writes`        | proved (the `set_text` of the repaired `hydrate` does not disturb the walk)  |
 | `C05_initial_dom_like_csr`             | proved (all `wfV` views with plain attributes, `""` included: DOM after hydration = client-built DOM, comments aside); `…_partial` = the same about the DOM before the write, `C05_initial_dom_old_witness` |
 | `C05_then_like_csr`                    | **proved**: hydrated-then-rebuilt = client-built-then-rebuilt, comments aside, for all pairs of one view type over the structural grammar (strings incl. `""`, `()`, elements, tuples, `Option`, `Either`, `Vec`, `AnyView`), static string attributes, `a` without child-less non-void elements |
-| `C05_then_like_csr_stmt`               | OPEN: the same with `Option<String>` / `bool` attributes and child-less elements (statement only; exercised by the correspondence run on every case) |
+| `C05_then_like_csr_kv`                 | **proved**: the same with `String` / `Option<String>` / `bool` attribute values (distinct names) changing freely between `a` and `b`; attribute lists compared as maps (`Tree.simList AttrsEq`, C03's relation for this fragment) |
+| `C05_then_like_csr_stmt`               | OPEN: the same for child-less non-void elements in `a` (and exact attribute order for `Option` / `bool` values) (statement only; exercised by the correspondence run on every case) |
 | `C05_empty_text_witness`, `…_mid`, `C05_then_like_csr_old_false` | regression witnesses of F-C05-1 (repaired: `fix: hydrating an empty string …`) |
 | `C05_fragment_parent_witness`          | regression witness of F-C05-3 (repaired: `fix: an empty StaticVec hydrated as the first child …`) |
 | `C05_keyed_position_witness`, `C05_result_err_position_witness` | regression witnesses of F-C05-4 / F-C05-5 (repaired: keyed list / `Result::Err` SSR position) |
@@ -184,10 +186,27 @@ theorem C05_then_like_csr (a b : View) (ty : Ty) (hta : HasTy a ty) (htb : HasTy
   have h2 := csr_side a b ty hta htb (staticV_allEl a hsa) (staticV_allEl b hsb) (wfH_of_wfV b _ hwb)
   simp [likeCsr, likeCsrOf, h1, h2, hstrip, treesBeq_refl]
 
-/-- what is still **OPEN** (stated, not proved): the same for `String` / `Option<String>` / `bool` attributes
-(C03 proves `rebuild` for static strings only) and for non-void elements without children (hydrated with
-`children: None`, client-built with a placeholder child).  The correspondence run evaluates it on every
-generated pair (model and real code); the instances below are kernel-evaluated. -/
+/-- **then behaves like a client-built view, `Option<String>` / `bool` attribute values included.**  The same for
+views whose elements carry `String`, `Option<String>` and `bool` attribute values with pairwise distinct names
+(`kvV`), values changing freely between `a` and `b` (`None` ↔ `Some`, `false` ↔ `true`, other strings): hydration
+succeeds, creates no node, and after the rebuild the hydrated tree and the client-built tree are the same once
+comments are stripped — attribute lists compared **as maps** (`Tree.simList AttrsEq`: a removed attribute that
+is set again later is appended, so its position in the list is not an invariant; C03's `AttrsRebuild_kv`).
+Proof: the erasure argument of `C05_then_like_csr` is independent of the attribute fragment (`Frag`: build and
+rebuild of plain attributes are `set_attribute` / `remove_attribute` on the element, which commute with the
+erasure — `rebuildAttrs_erase`); the hydrated element's attributes are those of a fresh render (`attrs_like_csr`);
+C03's `rebuild_spec` for `KVAttrs` up to `AttrsEq` on both sides; `stripL` respects the relation (`sim_stripL`). -/
+theorem C05_then_like_csr_kv (a b : View) (ty : Ty) (hta : HasTy a ty) (htb : HasTy b ty)
+    (hwa : wfV [[]] a = true) (hwb : wfV [[]] b = true) (hka : kvV a = true) (hkb : kvV b = true)
+    (hfa : fullV a = true) :
+    ∃ k1 k2, runHydrated (domOf a) a b = ⟨.ok (), 0, some k1⟩ ∧ runCsr a b = some k2 ∧
+      Tree.simList AttrsEq (stripL k1) (stripL k2) :=
+  then_like_csr_kv a b ty hta htb hwa hwb hka hkb hfa
+
+/-- what is still **OPEN** (stated, not proved): the same for non-void elements without children (hydrated with
+`children: None`, client-built with a placeholder child) and with attribute lists compared exactly for
+`Option<String>` / `bool` values (`C05_then_like_csr_kv` compares them as maps).  The correspondence run evaluates
+it on every generated pair (model and real code); the instances below are kernel-evaluated. -/
 def C05_then_like_csr_stmt : Prop :=
   ∀ a b : View, Comparable a b → likeCsr (domOf a) a b = true
 
@@ -477,6 +496,22 @@ example : loadOK (domOf (exOpt .onone)) = true := by decide +kernel
 example : likeCsr (domOf (exOpt .onone)) (exOpt .onone) (exOpt (.osome (.text "m"))) = true := by decide +kernel
 example : likeCsr (domOf (exOpt (.osome (.text "m")))) (exOpt (.osome (.text "m"))) (exOpt .onone) = true := by
   decide +kernel
+
+/-- `Option<String>` and `bool` attribute values changing on rebuild: the hypotheses of `C05_then_like_csr_kv`
+are satisfiable, and its conclusion holds even with attribute lists compared exactly here -/
+def exKV (title : Option String) (hidden : Bool) (s : String) : View :=
+  .elem "span" [.str "id" "x", .ostr "title" title, .bool "hidden" hidden] (.tuple [.text s])
+example : wfV [[]] (exKV none true "a") = true ∧ kvV (exKV none true "a") = true ∧ fullV (exKV none true "a") = true ∧
+    wfV [[]] (exKV (some "t") false "b") = true ∧ kvV (exKV (some "t") false "b") = true := by decide +kernel
+example : toHtml (exKV none true "a") = "<span id=\"x\" hidden>a</span>".toList := by decide +kernel
+example : likeCsr (domOf (exKV none true "a")) (exKV none true "a") (exKV (some "t") false "b") = true := by
+  decide +kernel
+example : ∃ k1 k2, runHydrated (domOf (exKV none true "a")) (exKV none true "a") (exKV (some "t") false "b")
+      = ⟨.ok (), 0, some k1⟩ ∧ runCsr (exKV none true "a") (exKV (some "t") false "b") = some k2 ∧
+      Tree.simList AttrsEq (stripL k1) (stripL k2) :=
+  C05_then_like_csr_kv _ _ (.elem "span" [.str "id", .ostr "title", .bool "hidden"] (.tuple [.text]))
+    (by decide +kernel) (by decide +kernel) (by decide +kernel) (by decide +kernel) (by decide +kernel)
+    (by decide +kernel) (by decide +kernel)
 
 /-- a `Vec` of elements followed by a sibling: the trailing `<!>` is where new items go -/
 def exItem (s : String) : View := .elem "b" [] (.tuple [.text s])
